@@ -31,14 +31,44 @@ def main():
         kf = json.load(open(os.path.join(ROOT, "known_findings.json")))
         stale, reproduced = [], []
         for k in kf:
-            if k.get("property") != pid or k.get("status") != "known" or not k.get("witness") or not hasattr(mod, "replay"):
+            if k.get("property") != pid or k.get("status") != "known" or not k.get("witness"):
+                continue
+            if not hasattr(mod, "replay") and not (isinstance(k["witness"], dict) and k["witness"].get("demo")):
                 continue
             c2 = Collector(pid, [k["id"]])
             try:
+                if isinstance(k["witness"], dict) and k["witness"].get("demo"):
+                    # the witness is a committed demonstration script (an independent reviewer's): it exits 1 while the
+                    # defect is present and 0 once the behaviour matches the statement
+                    import subprocess
+
+                    r = subprocess.run([sys.executable, os.path.join(ROOT, k["witness"]["demo"])], capture_output=True, text=True, timeout=300,
+                                       cwd=os.path.join(ROOT, os.path.dirname(k["witness"]["demo"])), env=dict(os.environ))
+                    if r.returncode == 1:
+                        c2.failures.append({"check": "known-witness-demo", "msg": (r.stdout or r.stderr)[-300:]})
+                    elif r.returncode != 0:
+                        c2.failures.append({"check": "witness-replay-crash", "msg": f"demo exit {r.returncode}: {(r.stderr or '')[-300:]}"})
+                    (reproduced if c2.failures else stale).append(k["id"])
+                    continue
                 mod.replay(c2, k["witness"], None)
             except Exception as exc:  # noqa: BLE001
                 c2.failures.append({"check": "witness-replay-crash", "msg": repr(exc)})
             (reproduced if c2.failures else stale).append(k["id"])
+        # a repaired defect whose witness is a demonstration script must stay repaired: the script failing again is a violation
+        for k in kf:
+            if k.get("property") != pid or k.get("status") != "fixed" or not (isinstance(k.get("witness"), dict) and k["witness"].get("demo")):
+                continue
+            import subprocess
+
+            try:
+                r = subprocess.run([sys.executable, os.path.join(ROOT, k["witness"]["demo"])], capture_output=True, text=True, timeout=300,
+                                   cwd=os.path.join(ROOT, os.path.dirname(k["witness"]["demo"])), env=dict(os.environ))
+                out["evaluations"] = out.get("evaluations", 0) + 1
+                if r.returncode == 1:
+                    out["failures"].append({"check": f"{pid}.fixed-finding-returned", "case": {"demo": k["witness"]["demo"], "finding": k["id"]},
+                                            "msg": f"the defect repaired in {k.get('commit')} is back: " + (r.stdout or r.stderr)[-300:], "known": None, "function": None, "oid": None})
+            except Exception as exc:  # noqa: BLE001
+                pass
         out["stale_known"] = sorted(set(out.get("stale_known", [])) | set(stale))
         out["known_reproduced"] = reproduced
         for kid in reproduced:
